@@ -203,8 +203,22 @@ def flow_sweep(rnd, env, res, n):
         w = UrwidImage(style_classes()[style](Image.new("RGB", src)), rnd.choice(["", "<.^", ">._"]), upscale=rnd.random() < 0.5)
         size = (rnd.randint(1, 16),)
         # what happened to the (possibly shared) image before rows() is asked
-        pre = rnd.choice(["fresh", "fresh", "box-then-flow", "manual-size", "shared-widget", "flow-other-width"])
+        pre = rnd.choice(["fresh", "fresh", "box-then-flow", "manual-size", "shared-widget", "flow-other-width", "asked-then-font-change", "asked-then-font-change"])
         image = w.image
+        ratio0 = None
+        if pre == "asked-then-font-change":
+            # the widget has announced (and perhaps rendered) at this very width before the
+            # font -- cell size for the graphics styles, cell ratio for the text styles --
+            # changed: what it announces now goes with what it renders now
+            import term_image
+
+            w.rows(size)
+            if rnd.random() < 0.5:
+                w.render(size)
+            ratio0 = term_image.get_cell_ratio()
+            cell = (rnd.randint(1, 12), rnd.randint(1, 24))
+            set_terminal(env, 80, 30, *cell)
+            term_image.set_cell_ratio(rnd.choice([0.25, 0.5, 1.0, 2.0, round(rnd.uniform(0.2, 2.5), 2)]))
         if pre == "box-then-flow":
             c = w.render((rnd.randint(1, 40), rnd.randint(1, 12)))
             size = (image.size[0],) if isinstance(image.size, tuple) else size
@@ -217,6 +231,8 @@ def flow_sweep(rnd, env, res, n):
             w.render((rnd.randint(1, 16),))
         announced = w.rows(size)
         rendered = w.render(size).rows()
+        if ratio0 is not None:
+            term_image.set_cell_ratio(ratio0)
         res.count("flow widgets: rows() vs render().rows()")
         res.count("flow pre-state " + pre)
         res.case(("flow", style, src, cell, size, pre))
